@@ -1,1 +1,3 @@
 import Proofs.C17
+import Proofs.C03
+import Proofs.C03Order
